@@ -11,12 +11,7 @@ DIRS=${@:-$(ls -d /verif/refactors/*/r* 2>/dev/null)}
 for d in $DIRS; do d=$(realpath $d)
   git -C $WT checkout -q --detach $(git -C /repo rev-parse HEAD); git -C $WT checkout -q -- .; git -C $WT clean -fdq
   if ! git -C $WT apply $d/patch.diff 2>/dev/null; then echo "$d: PATCH-DOES-NOT-APPLY"; continue; fi
-  alarms=""
-  for p in $PROPS; do
-    out=$(/verif/.bin/sialint -property $p -repo $WT -out /tmp/ev-scratch)
-    r=$(echo "$out" | grep -o "^\(FINDING\|UNDECIDED\) rule=[A-Z0-9.a-z]*" | sed 's/ rule=/:/' | sort -u | tr '\n' ' ')
-    [ -n "$r" ] && alarms="$alarms $r"
-  done
+  alarms=$(echo $PROPS | tr ' ' '\n' | xargs -P 10 -I{} sh -c '/verif/.bin/sialint -property {} -repo '$WT' -out /tmp/ev-scratch-{} | grep -o "^\(FINDING\|UNDECIDED\) rule=[A-Z0-9.a-z]*" | sed "s/ rule=/:/" | sort -u' | sort -u | tr '\n' ' ')
   if [ -z "$alarms" ]; then echo "$d: CLEAN"; else echo "$d: ALARM $alarms"; fi
 done
 git -C $WT checkout -q -- .
